@@ -38,7 +38,7 @@ func ioWorkload(c *Ctx, small bool) []*ioFile {
 		for _, codec := range []int{0, 1, 2} {
 			variants := 1
 			if c.Thorough {
-				variants = 4
+				variants = 10
 			}
 			for v := 0; v < variants; v++ {
 				for _, kind := range []string{"single-page", "multi-page", "multi-rowgroup"} {
